@@ -287,6 +287,8 @@ struct Driver {
     tcp_none: SocketAddr,
     tcp_gone: SocketAddr,
     gone_backend: SocketAddr,
+    /// enable waves run so far
+    enable_count: u32,
     trace: Vec<Value>,
     last_idle: Option<Value>,
     /// latest loop_idle seen (kept or not) and whether a non-idle worker event came after it
@@ -1066,7 +1068,14 @@ impl Driver {
     /// another comes; optionally off (a wipe for the global limit, none for a cluster's) and on again.
     /// Nothing is asserted here: every gate decision is compared with the spec's tables by Trace_Sessions.
     fn wave_enable(&mut self) {
-        let via_override = self.rng.random_bool(0.4);
+        // the first wave of a run switches the global limit (and always goes through off = wipe / on again), the second
+        // one a cluster's own limit; after that the seed chooses
+        let via_override = match self.enable_count {
+            0 => false,
+            1 => true,
+            _ => self.rng.random_bool(0.4),
+        };
+        self.enable_count += 1;
         let hc = if via_override { "c3" } else { "c1" };
         let tcp_too = self.rng.random_bool(0.6);
         let mut n = self.rng.random_range(1..3i64);
@@ -1128,7 +1137,7 @@ impl Driver {
                     news.push((j, f));
                 }
             }
-            if round == 1 || self.rng.random_bool(0.5) {
+            if round == 1 || (via_override && self.rng.random_bool(0.5)) {
                 break;
             }
             // F: off (global: the tables are wiped; cluster-level: nothing is), more connections, on again
@@ -1147,9 +1156,12 @@ impl Driver {
                     olds.push((i, f));
                 }
             }
-            // some of those that were open across the switch ask again while it is off
-            for (i, f) in news {
-                if f != Flavor::Tcp && self.fd_of(i).is_some() && self.rng.random_bool(0.5) {
+            // those that were open across the switch ask again while it is off (after a wipe they take their slot
+            // again - a backend connection of the cluster is still attached to most of them): the first one always
+            let mut first = true;
+            for (i, f) in olds.clone().into_iter().chain(news) {
+                if f != Flavor::Tcp && self.fd_of(i).is_some() && self.clients[i].served && (first || self.rng.random_bool(0.5)) {
+                    first = false;
                     self.ask(i, f, hc, "enable-off-again");
                 }
             }
@@ -1526,6 +1538,7 @@ fn main() {
         tcp_none,
         tcp_gone,
         gone_backend: btg,
+        enable_count: 0,
         trace: Vec::new(),
         last_idle: None,
         latest_idle: None,
